@@ -60,7 +60,51 @@ type resolver struct {
 	resolving map[string]bool
 	// submodules already merged into a module: submodules may include each other
 	included map[*Module]map[string]bool
-	trace     bool
+	// definitions left out because their if-feature is false, by the node they would be in
+	featureOff map[Meta]map[string]bool
+	trace      bool
+}
+
+func (r *resolver) leftOutByFeature(parent Meta, ident string) {
+	if r.featureOff == nil {
+		r.featureOff = make(map[Meta]map[string]bool)
+	}
+	if r.featureOff[parent] == nil {
+		r.featureOff[parent] = make(map[string]bool)
+	}
+	r.featureOff[parent][ident] = true
+}
+
+// true if the path leads into a definition that a false if-feature took out of the tree
+func (r *resolver) isLeftOutByFeature(parent Meta, path string) bool {
+	if strings.HasPrefix(path, "/") {
+		parent, path = RootModule(parent), path[1:]
+	}
+	for parent != nil && path != "" {
+		seg := path
+		if slash := strings.IndexRune(path, '/'); slash >= 0 {
+			seg, path = path[:slash], path[slash+1:]
+		} else {
+			path = ""
+		}
+		if colon := strings.IndexRune(seg, ':'); colon >= 0 {
+			if m, isModule := parent.(*Module); isModule {
+				if other, err := m.ModuleByPrefix(seg[:colon]); err == nil {
+					parent = other
+				}
+			}
+			seg = seg[colon+1:]
+		}
+		if r.featureOff[parent][seg] {
+			return true
+		}
+		next := Find(parent, seg)
+		if next == nil {
+			return false
+		}
+		parent = next
+	}
+	return false
 }
 
 func (r *resolver) module(y *Module) error {
@@ -185,6 +229,7 @@ func (r *resolver) enter(d Definition) ([]Definition, error) {
 				return nil, err
 			} else if !on {
 				delete(hasCases.cases, cident)
+				r.leftOutByFeature(hasCases, cident)
 				continue
 			}
 			if _, err := r.addDefinitions(c, c.popDataDefinitions()); err != nil {
@@ -607,6 +652,9 @@ func (r *resolver) addDefinitions(x HasDataDefinitions, defs []Definition) ([]De
 func (r *resolver) addDataDefinition(parent HasDataDefinitions, child Definition) ([]Definition, error) {
 	if hasIf, valid := child.(HasIfFeatures); valid {
 		if on, err := checkFeature(hasIf); err != nil || !on {
+			if _, isUses := child.(*Uses); !isUses && err == nil {
+				r.leftOutByFeature(parent, child.Ident())
+			}
 			return nil, err
 		}
 	}
@@ -874,6 +922,10 @@ func (r *resolver) applyRefinements(u *Uses, parent Definition) error {
 		}
 		target := Find(parent.(HasDataDefinitions), refine.Ident())
 		if target == nil {
+			if r.isLeftOutByFeature(parent, refine.Ident()) {
+				// nothing to refine in this feature configuration
+				continue
+			}
 			return fmt.Errorf("%s:could not find target for refine %s", SchemaPath(u), refine.Ident())
 		}
 		if err := r.refine(target, refine); err != nil {
@@ -929,6 +981,10 @@ func (r *resolver) expandAugment(y *Augment, parent Meta) error {
 	//   output, or notification node."
 	target := Find(parent.(HasDataDefinitions), y.ident)
 	if target == nil {
+		if r.isLeftOutByFeature(parent, y.ident) {
+			// nothing to augment in this feature configuration
+			return nil
+		}
 		return fmt.Errorf("%s - augment target is not found %s", SchemaPath(y), y.ident)
 	}
 
